@@ -502,6 +502,42 @@ def oracle_C12(rs, n, ctx):
             R.violate("C12:raytrace-list", f"IndexError in list raytrace (honor_grid={hl}): {ex.__cause__ or ex}", dict(rep, points_hex=hexl(pts), honor_grid=hl))
         except RuntimeError:
             R.bump("rays_budget")
+    # longer axes (17..40 cells) with the source on far faces / corners: clamps that rely on an absolute epsilon stop
+    # working once n - eps == n in binary64; the reported source-cell slowness must be that of the last cell
+    rs2 = np.random.RandomState(rs.randint(0, 2 ** 31 - 1))
+    for it in range(max(4, n // 4)):
+        nd = 2 if rs2.rand() < 0.7 else 3
+        cells = tuple(int(rs2.randint(17, 41)) if (rs2.rand() < 0.7 or a == 0) else int(rs2.randint(1, 5)) for a in range(nd)) if nd == 2 \
+            else tuple(int(rs2.randint(17, 25)) if a == int(rs2.randint(0, 3)) else int(rs2.randint(1, 4)) for a in range(nd))
+        d = gens.rand_spacing(rs2, nd)
+        o = [float(rs2.choice(gens.ORIGINS)) for _ in range(nd)]
+        v = rs2.uniform(1.0, 4.0, size=cells)
+        far = [bool(rs2.rand() < 0.7) for _ in range(nd)]
+        if not any(far):
+            far[int(rs2.randint(nd))] = True
+        srel = [d[a] * cells[a] if far[a] else float(rs2.uniform(0, d[a] * cells[a])) for a in range(nd)]
+        src = abs_source(o, srel, d, cells)
+        rep = model_replay(v, d, o, src, kind="uniform-random", cls="far-face-long-axis")
+        R.case(("long", nd, cells, tuple(far)), {"nd": nd, "cells": list(cells), "far": far})
+        try:
+            tt = eik(nd)(v, d, o).solve(src, return_gradient=True)
+        except (IndexError, SystemError) as ex:
+            if isinstance(ex, SystemError) and not isinstance(ex.__cause__, IndexError):
+                raise
+            R.violate("C12:solve", f"IndexError in solve (long axis, far-face source): {ex}", rep)
+            continue
+        except ValueError:
+            R.bump("long_axis_source_rejected")
+            continue
+        eff = np.asarray(src) - np.asarray(o, dtype=float)
+        ci = tuple(min(int(eff[a] / d[a]), cells[a] - 1) for a in range(nd))
+        if float(tt._vzero) != float(1.0 / v[ci]) and not np.isfinite(tt.grid).all():
+            R.violate("C12:solve", f"far-face source on a long axis: source-cell slowness {tt._vzero!r} is not that of cell {ci} and the grid is not finite", rep)
+        elif float(tt._vzero) != float(1.0 / v[ci]):
+            # a neighbouring cell is legitimate when the other coordinates are within rounding of a cell face
+            cands = {float(1.0 / v[tuple(min(max(ci[a] + da[a], 0), cells[a] - 1) for a in range(nd))]) for da in itertools.product((0, -1, 1), repeat=nd)}
+            if float(tt._vzero) not in cands:
+                R.violate("C12:solve", f"far-face source on a long axis: source-cell slowness {tt._vzero!r} is not a slowness of the model around cell {ci} (read outside the model)", rep)
     return R
 
 
